@@ -192,7 +192,7 @@ func Listen(network, address string) (Listener, error) {
 
 //go:norace
 func (l *MemListener) Accept() (Conn, error) {
-	rt.Point(rt.OpIO, l, func() bool { return l.closed || len(l.pending) > 0 })
+	rt.Point(rt.OpIO, []any{l, rt.NetGlobal}, func() bool { return l.closed || len(l.pending) > 0 })
 	if l.closed {
 		return nil, &realnet.OpError{Op: "accept", Net: "tcp", Err: ErrClosed}
 	}
@@ -204,11 +204,10 @@ func (l *MemListener) Accept() (Conn, error) {
 
 //go:norace
 func (l *MemListener) Close() error {
-	rt.Point(rt.OpIO, l, nil)
-	rt.Touch(rt.NetGlobal)
-	for _, c := range l.pending {
-		rt.Touch(c.pipe)
-	}
+	// closing a listener also resets the connections nobody accepted: which objects the step uses
+	// is not known while it is pending, so it is an operation that commutes with nothing
+	rt.Point(rt.OpIO, nil, nil)
+	rt.TouchAll()
 	if l.closed {
 		return &realnet.OpError{Op: "close", Net: "tcp", Err: ErrClosed}
 	}
